@@ -63,7 +63,8 @@ MemberClauses(m) ==
     \cup (IF CfgCore(m.ld_cfg) = ExpectedCfg(m) THEN {} ELSE {"config_differs"})
     \cup (IF m.lib_cfg_eq THEN {} ELSE {"config_unequal_by_library"})
     \cup (IF expColl.present /\ CollMap(m.ld_coll) # CollMap(expColl) THEN {"collected_metadata_differs"} ELSE {})
-    \cup (IF m.ld_cfg.n_mazes = m.pre_cfg.n_mazes THEN {} ELSE {"M:config_n_mazes"})
+    \* (a configuration whose n_mazes already disagreed with the number of mazes - m.stale - makes no promise about the field)
+    \cup (IF m.stale \/ m.ld_cfg.n_mazes = m.pre_cfg.n_mazes THEN {} ELSE {"M:config_n_mazes"})
     \cup (IF WillCollect(m.fmt, m.pre_coll.present, m.has_meta) /\ CollMap(m.ld_coll) # Collect(Metas(m))
           THEN {"M:collected_model"} ELSE {})
     \cup EncClauses(m)
